@@ -41,6 +41,17 @@ def generator_suite(chk, w, rule, maxlen, orders=(0, 1, 2), ns=None, fixed=True)
             cs.expect(f1, "BSplineGenerator(knots) succeeds iff the knots are non-decreasing with >= 2 distinct values",
                       case, o, (o.kind == "val") if good else o.throws_lib(),
                       "a generator" if good else "throws BSplineException")
+            if not good and L >= 2 and NAN not in seq:
+                # the two-argument route must refuse the same knot sequences, whatever grid comes with them (a grid that
+                # happens to contain every knot value, has as many points as the sequence has runs, ...)
+                for gv in ([0, 2], [0, 4], [2, 4], [0, 2, 4], [0, 2, 4, 6], [0, 2, 4, 6, 8]):
+                    g = w.mk_grid([Sc(x) for x in gv])
+                    if g.kind != "val":
+                        continue
+                    o2 = w.run(lambda: w.I.construct(c2, [box(Vec(list(knots))), box(g.v)]), "BSplineGenerator(knots,grid)")
+                    cs.expect(f2, "BSplineGenerator(knots, grid) accepts exactly non-decreasing knots with >= 2 distinct "
+                                  "values, whatever grid is supplied", dict(case, grid=gv), o2, o2.throws_lib(),
+                              "throws BSplineException")
             if not good or o.kind != "val":
                 continue
             gen = o.v
